@@ -45,7 +45,7 @@ func removalExclusion(c *Check, f *ssa.Function, ts VM, nodeExpr VM) (bool, stri
 }
 
 func propC10(c *Check) {
-	c.Explain = "Decides the arithmetic and structural facts behind quorum intersection: (1) the return expression of ConsensusThreshold is extracted (consensusBase*2/3+1) and evaluated for every base b in [KernelMinimumNodesCount, 64]: for every key-set size n with t <= n <= b, 3*(2t-n) > n, i.e. two signer sets of size >= t inside n keys share more than n/3; below the minimum the function returns 1000, which exceeds the 64-bit mask size, and the minimum test is consensusBase < KernelMinimumNodesCount; (2) key set is a subset of the base set: consensusNodes admits a node only if ConsensusReady (ACCEPTED and genesis or Timestamp+KernelNodeAcceptPeriodMinimum < T), the base counts ACCEPTED nodes with genesis or Timestamp+SnapshotReferenceThreshold*SnapshotRoundGap < T, and the constants satisfy AcceptPeriodMinimum >= ReferenceThreshold*RoundGap; with final=true pledging nodes are not counted; (3) ConsensusThreshold and consensusNodes read the same list NodesListWithoutState(T,false) and apply the same predictive-removal exclusion; (4) KernelMaximumNodesCount <= 64. KNOWN FINDING (reported, not repaired): for round 0 of a pledging chain consensusNodes appends the pledging node itself, so the key set has b+1 keys while the threshold is computed from b; for b mod 3 != 0 (e.g. b=7, t=5, n=8) two certificates can intersect in no more than n/3 keys. Pairing: at every cacheVerifyCosi call site in the module (verifyFinalization current rule and legacy retry, cosiHandleResponse) the threshold argument is ConsensusThreshold(T, _) and the key vector is ConsensusKeys(round, T) for the same T."
+	c.Explain = "Decides the arithmetic and structural facts behind quorum intersection: (1) the return expression of ConsensusThreshold is extracted (consensusBase*2/3+1) and evaluated for every base b in [KernelMinimumNodesCount, 64]: for every key-set size n with t <= n <= b, 3*(2t-n) > n, i.e. two signer sets of size >= t inside n keys share more than n/3; below the minimum the function returns 1000, which exceeds the 64-bit mask size, and the minimum test is consensusBase < KernelMinimumNodesCount; (2) key set is a subset of the base set: consensusNodes admits a node only if ConsensusReady (ACCEPTED and genesis or Timestamp+KernelNodeAcceptPeriodMinimum < T), the base counts ACCEPTED nodes with genesis or Timestamp+SnapshotReferenceThreshold*SnapshotRoundGap < T, and the constants satisfy AcceptPeriodMinimum >= ReferenceThreshold*RoundGap; with final=true pledging nodes are not counted; (3) ConsensusThreshold and consensusNodes read the same list NodesListWithoutState(T,false) and apply the same predictive-removal exclusion; (4) KernelMaximumNodesCount <= 64. KNOWN FINDING (reported, not repaired): for round 0 of a pledging chain consensusNodes appends the pledging node itself, so the key set has b+1 keys while the threshold is computed from b; for b mod 3 != 0 (e.g. b=7, t=5, n=8) two certificates can intersect in no more than n/3 keys. Pairing: at every cacheVerifyCosi call site in the module (verifyFinalization current rule and legacy retry, cosiHandleResponse) the threshold argument is ConsensusThreshold(T, _) and the key vector is ConsensusKeys(round, T) for the same T. The delay after which an accepted node enters the threshold base is not longer than the delay after which it enters the signer key set."
 	c.NotCov = "that the sets coincide at every timestamp boundary of every history (C11 decides determinism, not equality across nodes)."
 	c.Floor(10)
 	w := c.W
@@ -486,7 +486,7 @@ func propC11(c *Check) {
 }
 
 func propC29(c *Check) {
-	c.Explain = "Decides determinism and the exclusion structure of operator election: (1) purity of electSnapshotNode and checkRemovePossibility (the result depends on operation, timestamp, epoch and the membership list only); (2) the elected node is accepted[idx] where accepted = NodesListWithoutState(now,true)[1:len-1] (never the oldest or the newest accepted node), guarded by len >= KernelMinimumNodesCount so the modulus is >= KernelMinimumNodesCount-2 > 0, idx = (day + operation) % len; operations outside the consensus class elect nobody; (3) the removal candidate is element 0 of the ACCEPTED nodes of NodesListWithoutState(now,false) in list order (or the node of the re-submitted transaction), and candi.IdForNetwork == nodeId rejects; no removal while a node is pledging, outside the accept window, or with <= minimum accepted nodes; (4) hour windows from typed constants: mint [7,9] and accept [13,19] are disjoint and inside [0,23]; checkConsensusAcceptHour uses both bounds inclusively; checkConsensusPledgeHour is the complement of both windows."
+	c.Explain = "Decides determinism and the exclusion structure of operator election: (1) purity of electSnapshotNode and checkRemovePossibility (the result depends on operation, timestamp, epoch and the membership list only); (2) the elected node is accepted[idx] where accepted = NodesListWithoutState(now,true)[1:len-1] (never the oldest or the newest accepted node), guarded by len >= KernelMinimumNodesCount so the modulus is >= KernelMinimumNodesCount-2 > 0, idx = (day + operation) % len; operations outside the consensus class elect nobody; (3) the removal candidate is element 0 of the ACCEPTED nodes of NodesListWithoutState(now,false) in list order (or the node of the re-submitted transaction), and candi.IdForNetwork == nodeId rejects; no removal while a node is pledging, outside the accept window, or with <= minimum accepted nodes; (4) hour windows from typed constants: mint [7,9] and accept [13,19] are disjoint and inside [0,23]; checkConsensusAcceptHour uses both bounds inclusively; checkConsensusPledgeHour is the complement of both windows. Enforcement: validateKernelSnapshot honours the verdict of each of the six per-class snapshot validators, and the mint / pledge / remove / custodian-update validators reject unless the snapshot's node is electSnapshotNode(<class>, timestamp); every state-sequence table entry is recomputed from the records; the election memoises nothing (no cache use, no shared writes)."
 	c.NotCov = "that all nodes hold the same membership list at that time (C11 decides determinism given the list)."
 	c.Floor(12)
 	w := c.W
